@@ -10,7 +10,7 @@ from ..cfg import cfg_of
 from ..effects import is_self_attr
 from ..interval import INF, IntervalFn, Iv, term_interval
 from ..loader import AnalysisError, norm_text
-from ..terms import S
+from ..terms import S, show_norm
 from . import c10
 from .common import Context, calls_in, parents_of
 from .solverterms import CONV_TESTS, HAS_CONV_TEST, solver_interp
@@ -38,6 +38,7 @@ RULES = {
     "R20.8": "the four problem constructors and the solver accept `config` or keyword arguments the same way: self.config = config if given else self.Config(**kwargs)",
     "R20.9": "verbosity: every validator-accepted level 0..4 is a key of the level table, the table is {0:ERROR,1:WARNING,2:INFO,3:DEBUG,4:TRACE}, the string table of set_verbosity is its inverse, anything else raises",
     "R20.10": "defaults: every field default lies in the validator-accepted domain, and the five solver configurations agree on the defaults of their shared fields (gamma of relative value iteration excepted); jax_double_precision defaults to True",
+    "R20.14": "a division whose divisor can be 0 for a validator-accepted configuration (the max-diff threshold divides by gamma, and gamma = 0 is accepted) is carried out on JAX / NumPy scalars, where it yields inf, never on Python numbers, where it raises ZeroDivisionError in the constructor: the attribute holding the divisor is assigned from an array constructor",
     "R20.13": "no function or method of the package has a mutable or call-valued default argument (list / dict / set display, constructor call): it is evaluated once and shared by every call and every solver instance, so one solve could change the defaults of the next (expected count zero)",
     "R20.12": "a configuration value for which 0 / 0.0 is a valid setting (gamma, checkpoint_frequency, max_checkpoints, fire / substitution probability, random_seed) is never subjected to truthiness (`x or default`, `if x:`, `x and ...`): the valid zero would silently become the fallback (expected count zero; `verbose`, where 0 means quiet, is exempt)",
     "R20.11": "solver code never takes a dtype from a runtime value (`x.astype(v.dtype)`, `dtype=v.dtype`) nor casts to a narrower float: with double precision requested, results must not inherit the width of whatever estimates or tables came in (expected count zero)",
@@ -554,6 +555,35 @@ def _validators(ctx, col):
         raise AnalysisError(f"count floor missed: only {total} validator guards parsed (65 confirmed by hand on the reference tree)")
 
 
+_ARRAY_CTORS = ("jnp.array", "jnp.asarray", "jnp.float64", "jnp.float32", "np.array", "np.asarray", "np.float64", "np.float32", "jax.numpy.array",
+                "jax.numpy.asarray", "numpy.array", "numpy.asarray", "numpy.float64")
+
+
+def _attr_number_kind(ctx, cls, attr):
+    """('array' | 'python' | 'unknown', source text) of the value the constructors assign to self.<attr>"""
+    kinds = []
+    for k in ctx.ct.mro(cls):
+        for mname, fn in k.methods.items():
+            for st in ast.walk(fn):
+                if isinstance(st, ast.Assign) and len(st.targets) == 1:
+                    t = st.targets[0]
+                    if isinstance(t, ast.Attribute) and isinstance(t.value, ast.Name) and t.value.id == "self" and t.attr == attr:
+                        v = st.value
+                        if isinstance(v, ast.Call) and ast.unparse(v.func) in _ARRAY_CTORS:
+                            kinds.append(("array", norm_text(st)))
+                        elif isinstance(v, (ast.Attribute, ast.Name, ast.Constant)) or (isinstance(v, ast.Call) and ast.unparse(v.func) in ("float", "int")):
+                            kinds.append(("python", norm_text(st)))
+                        else:
+                            kinds.append(("unknown", norm_text(st)))
+    if not kinds:
+        return "unknown", None
+    for want in ("python", "unknown"):
+        for kd in kinds:
+            if kd[0] == want:
+                return kd
+    return kinds[0]
+
+
 # =============================================================================== R20.5
 def _format_precision(ctx, col):
     logm = ctx.repo.module("mdpax.utils.logging")
@@ -604,6 +634,20 @@ def _format_precision(ctx, col):
                 iv = term_interval(t, dom)
             except AnalysisError as e:
                 raise AnalysisError(f"{construct}: threshold interval undecided ({e})") from e
+            # R20.14: what the threshold divides by
+            from ..interval import zero_divisors
+            for dv in zero_divisors(t, dom):
+                name_ = {"GAMMA": "gamma", "EPS": "epsilon"}.get(dv[1]) if dv[0] == "sym" else None
+                kind_, where_ = _attr_number_kind(ctx, cls, name_) if name_ else ("unknown", None)
+                if kind_ == "unknown":
+                    raise AnalysisError(f"{construct}: the threshold divides by {show_norm(dv)[:40]}, which may be 0, and the kind of value assigned to "
+                                        f"self.{name_} is not recognised (`{where_}`): R20.14 undecided")
+                okd = kind_ == "array"
+                col.add("R20.14", construct, owner.module.relpath, calls[0].lineno, okd,
+                        (f"the threshold divides by {name_}, which may be 0; self.{name_} is a JAX / NumPy value (`{where_}`), so the quotient is inf" if okd else
+                         f"the threshold divides by {show_norm(dv)[:40]}, which is 0 for an accepted configuration, and self.{name_} is "
+                         f"{'a plain Python number' if kind_ == 'python' else 'of unknown kind'} (`{where_}`): `/` on Python numbers raises ZeroDivisionError, so "
+                         f"{name_} = 0 cannot even be constructed") + f" [convergence_test={ct_}]", text=f"division by {name_} [{ct_}]")
             run = IntervalFn(gfn).run({gfn.args.args[0].arg: iv})
             problems = [str(h) for h in run.hazards]
             if not run.results:
